@@ -1112,3 +1112,119 @@ def packet_parser_iteration():
     return {'name': 'packetparser-feed_data-iteration', 'kernel': 'bumble.transport.common.PacketParser.feed_data (while-loop body)',
             'bounds': 'one iteration from any loop-head state (chunk of 1..70000 bytes at any offset; phase type / length / body with the bytes still needed consistent with the packet so far; header geometry 1..2 + 1..2 bytes; body length 0..65535; known or unknown type byte): exactly min(needed, left) bytes are copied from the chunk at the current offset, offset + left is conserved, the phase advances only when its bytes are complete, a packet is emitted exactly when header + body are complete (zero-length bodies at once) with exactly that many bytes, an unknown type resets and raises',
             'fn': fn, 'validate': validate, 'replay': replay, 'mutants': [(n, (lambda r=r: fn(r))) for n, r in muts]}
+
+
+# ================================================================================= C05: HCI_AclDataPacketAssembler.feed_packet
+def acl_assembler_step():
+    from bumble import hci
+
+    def symbolic(repl=None, pin=None, out=None):
+        fn = func_ast(hci.HCI_AclDataPacketAssembler.feed_packet, repl)
+        solver = z3.Solver()
+        solver.set('timeout', 60000)
+        it = Interp(solver, stubs={'logger': _LOGGER, 'HCI_ACL_PB_FIRST_NON_FLUSHABLE': hci.HCI_ACL_PB_FIRST_NON_FLUSHABLE, 'HCI_ACL_PB_FIRST_FLUSHABLE': hci.HCI_ACL_PB_FIRST_FLUSHABLE,
+                                   'HCI_ACL_PB_CONTINUATION': hci.HCI_ACL_PB_CONTINUATION})
+        names = ('have', 'L', 'pb', 'n', 'hdr')
+        vc = VC(it, names)
+
+        def make_env(s):
+            have, L, pb, n, hdr = z3.Ints('have L pb n hdr')
+            # assembler state: `have` bytes collected (0 = nothing pending) of a PDU announcing L payload bytes; incoming fragment: PB flag, n bytes
+            s.add(have >= 0, L >= 0, L <= 65535, z3.Implies(have > 0, z3.And(have >= 2, have < L + 4)), z3.Implies(have == 0, L == 0), pb >= 0, pb <= 3, n >= 0, n <= 65535, hdr >= 0, hdr <= 65535,
+                  z3.Implies(z3.Or(pb == 0, pb == 2), n >= 2))       # a first fragment holds at least the 2-byte length (shorter ones raise struct.error: C17)
+            for name, v in (pin or {}).items():
+                s.add({'have': have, 'L': L, 'pb': pb, 'n': n, 'hdr': hdr}[name] == v)
+            delivered = []
+            so = Obj(callback=lambda d: delivered.append(d), current_data=None, l2cap_pdu_length=L)
+            env = {'self': so, 'packet': Obj(pb_flag=pb, data=SBytes.base('pkt', n)), 'struct': Obj(unpack_from=lambda fmt, buf, o: (hdr,))}
+            return env, dict(have=have, L=L, pb=pb, n=n, hdr=hdr, so=so, delivered=delivered)
+
+        def entry(it, env):
+            if it.truth(z3.Int('have') > 0):
+                env['self'].current_data = SBytes.base('acc', z3.Int('have'))
+
+        def on_path(env, ctx, it, ret):
+            have, L, pb, n, hdr, so, delivered = (ctx[k] for k in ('have', 'L', 'pb', 'n', 'hdr', 'so', 'delivered'))
+            cur = so.current_data
+            cur_len = cur.length() if isinstance(cur, SBytes) else z3.IntVal(0)
+            if out is not None:
+                out.append(_ints(None, it.solver, [cur_len, so.l2cap_pdu_length, (delivered[0].length() if delivered else z3.IntVal(-1))]) + [ret if isinstance(ret, tuple) else None])
+                return
+            first_frag = z3.Or(pb == 0, pb == 2)
+            total = z3.If(first_frag, n, have + n)
+            ann = z3.If(first_frag, hdr, L)
+            raised = isinstance(ret, tuple) and ret[0] == 'raise'
+            if raised:
+                ok = z3.And(pb == 3, have == 0, z3.BoolVal(not delivered))            # an undefined PB flag with nothing pending trips the assert: an ordinary exception
+            elif delivered:
+                d = delivered[0]
+                whole = d.segs == [('pkt', d.segs[0][1], d.segs[0][2])] if len(d.segs) == 1 else True
+                ok = z3.And(z3.BoolVal(len(delivered) == 1), z3.Or(first_frag, z3.And(pb == 1, have > 0)), total == ann + 4, d.length() == total, z3.BoolVal(cur is None), so.l2cap_pdu_length == 0,
+                            z3.BoolVal(d.segs[0][0] == ('pkt' if len(d.segs) == 1 else 'acc')))
+            elif cur is None:
+                # nothing pending afterwards: an overflowing PDU was dropped, or a stray continuation was ignored
+                ok = z3.Or(z3.And(z3.Or(first_frag, z3.And(pb == 1, have > 0)), total > ann + 4, so.l2cap_pdu_length == 0),
+                           z3.And(pb == 1, have == 0, so.l2cap_pdu_length == L))
+            else:
+                ok = z3.If(pb == 3, z3.And(have > 0, cur_len == have, so.l2cap_pdu_length == L),
+                           z3.And(z3.Or(first_frag, z3.And(pb == 1, have > 0)), total < ann + 4, cur_len == total, so.l2cap_pdu_length == ann))
+            vc.must(ok)
+        it.explore(fn.body, make_env, on_path, entry=entry)
+        return vc, it
+
+    def real(have, L, pb, n, hdr):
+        got = []
+        a = hci.HCI_AclDataPacketAssembler(got.append)
+        stream = bytes(i % 251 for i in range(have + n + 4))
+        if have:
+            a.current_data = L.to_bytes(2, 'little') + stream[2:have]
+            a.l2cap_pdu_length = L
+        data = (hdr.to_bytes(2, 'little') + stream[2:n]) if pb in (0, 2) else stream[:n]
+        try:
+            a.feed_packet(Obj(pb_flag=pb, data=data))
+            raised = False
+        except AssertionError:
+            raised = True
+        return a, got, raised
+
+    def validate():
+        k = 0
+        for have, L, pb, n, hdr in ((0, 0, 2, 6, 2), (0, 0, 2, 4, 5), (0, 0, 0, 9, 2), (3, 7, 1, 8, 0), (3, 7, 1, 2, 0), (3, 7, 1, 20, 0), (0, 0, 1, 5, 0), (5, 9, 3, 1, 0), (0, 0, 3, 1, 0), (4, 2, 2, 6, 2)):
+            a, got, raised = real(have, L, pb, n, hdr)
+            o = []
+            symbolic(pin={'have': have, 'L': L, 'pb': pb, 'n': n, 'hdr': hdr}, out=o)
+            want = [len(a.current_data) if a.current_data is not None else 0, a.l2cap_pdu_length, (len(got[0]) if got else -1)]
+            if len(o) != 1 or (o[0][3] is not None) != raised or (not raised and o[0][:3] != want):
+                return False, f'mismatch at have={have} L={L} pb={pb} n={n} hdr={hdr}: interpreter {o} vs real {want} raised={raised}'
+            k += 1
+        return True, f'{k} concrete assembler states agree with the real HCI_AclDataPacketAssembler.feed_packet'
+
+    def fn(repl=None):
+        vc, it = symbolic(repl)
+        return _status(vc, it)
+
+    def replay(model):
+        g = lambda k, d=0: int(model.get(k, d))
+        have, L, pb, n, hdr = g('have'), g('L'), g('pb'), g('n'), g('hdr')
+        a, got, raised = real(have, L, pb, n, hdr)
+        first_frag = pb in (0, 2)
+        total, ann = (n, hdr) if first_frag else (have + n, L)
+        active = first_frag or (pb == 1 and have > 0)
+        if raised:
+            ok = pb == 3 and have == 0
+        elif active and total == ann + 4:
+            ok = len(got) == 1 and len(got[0]) == total and a.current_data is None
+        elif active and total > ann + 4:
+            ok = not got and a.current_data is None
+        elif active:
+            ok = not got and a.current_data is not None and len(a.current_data) == total
+        else:
+            ok = not got and (len(a.current_data) if a.current_data else 0) == have
+        return (not ok), f'real feed_packet(have={have}, L={L}, pb={pb}, n={n}, announced={hdr}) {"violates" if not ok else "satisfies"} the reassembly oracle'
+
+    muts = [('complete-one-byte-early', ('len(self.current_data) == self.l2cap_pdu_length + 4', 'len(self.current_data) >= self.l2cap_pdu_length + 3')),
+            ('continuation-replaces-data', ('self.current_data += packet.data', 'self.current_data = packet.data')),
+            ('overflow-kept', ('if len(self.current_data) > self.l2cap_pdu_length + 4:', 'if len(self.current_data) > self.l2cap_pdu_length + 400:'))]
+    return {'name': 'acl-assembler-feed_packet', 'kernel': 'bumble.hci.HCI_AclDataPacketAssembler.feed_packet',
+            'bounds': 'one ACL fragment (PB flag 0..3, 0..65535 bytes, first fragments >= 2 bytes, announced L2CAP length 0..65535) into an arbitrary assembler state (nothing pending, or 2.. bytes of a PDU still short of its announced length): the PDU is delivered exactly when 4 + announced bytes are there, as the concatenation collected so far; an overflow drops it; a continuation with nothing pending is ignored; an undefined PB flag changes nothing (or trips the assert when nothing is pending)',
+            'fn': fn, 'validate': validate, 'replay': replay, 'mutants': [(n, (lambda r=r: fn(r))) for n, r in muts]}
